@@ -178,7 +178,7 @@ impl<C: Cfg> World<C> {
                 // nth / nth_back (skip 0..=len+1 items) on one of the calls, and an adaptor at the end
                 let mut skips: Vec<u8> = vec![0; calls.len()];
                 let mut finish = 0;
-                if kind != 7 && self.spec.mon & MON_ITER != 0 {
+                if kind != 7 {
                     if !calls.is_empty() && ch.flip() {
                         let pos = ch.pick(calls.len().min(3) as u32) as usize;
                         skips[pos] = (1 + ch.pick(len.min(200) as u32 + 2)).min(250) as u8;
@@ -458,6 +458,35 @@ impl<C: Cfg> World<C> {
 }
 
 impl<C: Cfg> World<C> {
+    /// After the operation(s) of a one-step case: every vector takes two more elements (typed and
+    /// erased push) under the ordinary oracle, so that state damaged silently by the operation
+    /// (lost destructor, capacity that no longer grows, stale cached offsets) shows when the
+    /// vectors are used again and finally dropped.
+    pub fn epilogue(&mut self, tr: &mut String) {
+        if self.dead() || self.fault_mode {
+            return;
+        }
+        let nt = self.nontrivial;
+        for s in 0..self.n_slots {
+            if self.vecs[s].is_none() {
+                continue;
+            }
+            let room = match self.flav[s].fixed_cap() {
+                Some(c) => c.saturating_sub(self.model[s].len()),
+                None => usize::MAX,
+            };
+            if room >= 1 && !self.dead() {
+                self.do_insert(s, None, Src::Typed, s, 0, 1, false, tr);
+                self.check_state("epilogue-push");
+            }
+            if room >= 2 && !self.dead() {
+                self.do_insert(s, None, Src::Raw, s, 0, 1, false, tr);
+                self.check_state("epilogue-push-raw");
+            }
+        }
+        self.nontrivial = nt;
+    }
+
     /// Arm the k-th user-code invocation (1-based, counted from now) to panic.
     pub fn arm_fault(&mut self, k: u32) {
         crate::elem::reg(|r| {
@@ -634,6 +663,7 @@ pub fn run_body<C: Cfg>(spec: &Spec, shape: Shape, ch: &mut Ch, tr: &mut String,
             if shape == Shape::Step2 && !w.dead() {
                 w.step(ch, false, tr);
             }
+            w.epilogue(tr);
         }
         Shape::CloneThen => {
             let fi = ch.pick(nf) as usize;
@@ -676,6 +706,7 @@ pub fn run_body<C: Cfg>(spec: &Spec, shape: Shape, ch: &mut Ch, tr: &mut String,
                     let slots = if on_clone { (1, 0) } else { (0, 1) };
                     w.step_on(ch, false, Some(slots), tr);
                 }
+                w.epilogue(tr);
             }
         }
         Shape::RawThen => {
@@ -689,6 +720,23 @@ pub fn run_body<C: Cfg>(spec: &Spec, shape: Shape, ch: &mut Ch, tr: &mut String,
             w.setup_slot(1, fl, fl.fixed_cap().unwrap_or(2).min(2), None);
             w.check_state("setup");
             w.nontrivial = false;
+            // a capacity route before decomposing: none | shrink_to_fit | reserve(3) | pop
+            match ch.pick(4) {
+                1 if C::M::RESIZABLE => {
+                    w.do_capacity(CapOp::ShrinkToFit, 0, 0, false, tr);
+                    let _ = write!(tr, "; ");
+                }
+                2 if C::M::RESIZABLE => {
+                    w.do_capacity(CapOp::Reserve, 0, 3, false, tr);
+                    let _ = write!(tr, "; ");
+                }
+                3 => {
+                    w.do_remove(RemKind::Pop, 0, 0, Sink::Drop, 1, 0, tr);
+                    let _ = write!(tr, "; ");
+                }
+                _ => {}
+            }
+            w.check_state("raw-prefix");
             let trips = 1 + ch.pick(3);
             for t in 0..trips {
                 let cl = ch.flip();
@@ -779,7 +827,8 @@ pub fn run_body<C: Cfg>(spec: &Spec, shape: Shape, ch: &mut Ch, tr: &mut String,
             } else {
                 let k = 3 + ch.pick(spec.max_len as u32);
                 let erased = ch.flip();
-                w.amortisation_case(fl, k, erased, tr);
+                let prefix = ch.pick(5);
+                w.amortisation_case(fl, k, erased, prefix, tr);
             }
         }
         Shape::History => {
